@@ -342,3 +342,25 @@ impl Check for C14 {
         out
     }
 }
+
+/// byte decoder for the coverage-guided tier: every byte selects a char from a 64-entry table in
+/// which markers, backslash and whitespace are frequent; 0xFF separates texts.
+pub fn decode_pcase(data: &[u8]) -> PCase {
+    const T: &[char] = &[
+        'a', 'b', 'c', 'x', 'y', 'A', 'B', 'Z', '0', '9', '!', '^', '\'', '$', '\\', ' ', '!', '^', '\'', '$', '\\', ' ', '\\', ' ', '\t', '\n', '\r', '\u{a0}', '\u{3000}', '\u{b}', 'é', 'É', 'ä', 'σ', 'Σ', 'ς', 'ß', 'ǅ', '漢', 'ж', 'Ж', 'ñ', 'Æ', 'µ', 'ſ', '-', '_', '.', '/', '\u{301}', 'ɐ', 'Ɐ', 'e', 'E', 'o', 'q', 'İ', 'ı', '😀', 'か', 'd', 'f', 'g', 'h',
+    ];
+    let flags = data.first().copied().unwrap_or(0);
+    let body = data.get(1..).unwrap_or(&[]);
+    let mut parts: Vec<String> = body.split(|&b| b == 0xFF).take(4).map(|p| p.iter().take(24).map(|&b| T[b as usize % T.len()]).collect()).collect();
+    if parts.is_empty() {
+        parts.push(String::new());
+    }
+    let mut literal: Vec<char> = parts.pop().unwrap().chars().filter(|c| !c.is_whitespace() || *c == ' ').collect();
+    while literal.len() >= 2 && literal[0] == '\\' && matches!(literal[1], '!' | '^' | '\'') {
+        literal.remove(0);
+    }
+    if parts.is_empty() {
+        parts.push(literal.iter().collect());
+    }
+    PCase { texts: parts, literal: literal.into_iter().collect(), case: flags % 3, norm: (flags >> 2) % 2, kind: (flags >> 3) % 5 }
+}
